@@ -1612,7 +1612,15 @@ func (e *extraIndenter) WriteByte(b byte) error {
 		e.bufWriter.WriteByte('\t')
 	}
 	e.bufWriter.WriteByte(tabwriter.Escape)
-	e.bufWriter.Write(trimmed)
+	if body := trimmed[:len(trimmed)-1]; bytes.IndexByte(body, '\t') >= 0 {
+		// Tabs inside the line must not reach the tabwriter as cell separators.
+		e.bufWriter.WriteByte(tabwriter.Escape)
+		e.bufWriter.Write(body)
+		e.bufWriter.WriteByte(tabwriter.Escape)
+		e.bufWriter.WriteByte('\n')
+	} else {
+		e.bufWriter.Write(trimmed)
+	}
 	e.curLine = e.curLine[:0]
 	return nil
 }
